@@ -900,6 +900,12 @@ def rejects(rep, meta, sfx):
             continue
         rets = [x for x in walk(fn["body"]) if kind(x) == "Ret" and x.get("e") is not None and not hirq.is_desugar(x)
                 and kind(peel(x["e"])) == "Call" and str(callee(peel(x["e"]))).endswith("Result::Err")]
+        inret = set(id(peel(x["e"])) for x in rets)
+        # errors produced as values (`0 => Err(..)` in a helper that validates a bound, `.map_err(|_| ..)`)
+        rets += [x for x in walk(fn["body"]) if kind(x) == "Call" and str(callee(x)).endswith("Result::Err") and id(x) not in inret
+                 and not x.get("desugared") and not any("QuestionMark" in e_ or "?" == e_ for e_ in (x.get("exp") or []))
+                 and any(kind(y) == "Struct" or (kind(y) == "Call" and "Error" in str(callee(y))) for y in walk(x))]
+        rets += [x for x in walk(fn["body"]) if kind(x) == "MethodCall" and x["m"] == "map_err"]
         if not rets:
             continue
         ctx = hirq.Ctx(fn)
@@ -909,6 +915,13 @@ def rejects(rep, meta, sfx):
             key = "%s:%s" % (fn["path"].replace("pest_meta::parser::", ""), hirq.line(rt))
             numeric = []
             for g in ctx.guards(rt):
+                if g[0] == "arm":
+                    # a literal pattern on a count: only `0` is a documented rejection
+                    for q in walk(g[1]["arms"][g[2]]["pat"]):
+                        if q.get("k") == "PLit" and isinstance(q.get("v"), int) and not isinstance(q.get("v"), bool) and q.get("v") != 0:
+                            r.violation("reject:%s" % fn["path"].replace("pest_meta::parser::", ""), where(rt),
+                                        "the reader returns an error for the count %s" % q.get("v"))
+                    continue
                 if g[0] not in ("if", "guard", "not"):
                     continue
                 stack = [g[1]]
